@@ -158,6 +158,13 @@ def stepOp (st : DriverState) (toks : List String) : DriverState × String :=
   | ["K", s] => (st, opChecksalt s)
   | ["KE", s] => (st, opChecksaltEnum s)
   | "O" :: id :: fill :: _ => opObj st id fill
+  | "CC" :: _ :: _ :: p :: s :: _ =>
+    (match argBytes p, argBytes s with
+     | some p, some s =>
+       let (c, m) := costOf Config.tree s
+       let pl := match p with | some p => p.length | none => 0
+       (st, s!"cost={c * (1 + pl / 48)} mem={m}")
+     | _, _ => (st, "bad-op"))
   | ["C", entry, id, p, s] => opCrypt st entry id p s none
   | ["C", entry, id, p, s, sz] => opCrypt st entry id p s (some sz)
   | ["P"] => (st, opPreferred)
